@@ -352,7 +352,7 @@ def check_obligation(ctx, ob):
         if r != z3.unknown:
             break
     dt = total
-    ctx.solver_time = spent + total
+    ctx.solver_time = spent + (total if r == z3.unknown else 0.0)      # only time wasted on undecided queries counts against the budget
     model = ''
     if r == z3.sat:
         try:
@@ -511,16 +511,21 @@ def verify_function(contract, inst, registry):
             if r0 != 'sat':
                 continue            # dead loop in this instance (or undecided start): nothing to conclude
             ends = []
-            for pc in rec['ends']:
+            for pc in rec['ends'][:6]:
                 ends.append(_sat(ctx, pc, 4000))
                 if ends[-1] == 'sat':
                     break
             if 'sat' not in ends and 'unknown' in ends:
-                ends = []
-                for pc in rec['ends']:
-                    ends.append(_sat(ctx, pc, 15000))
-                    if ends[-1] == 'sat':
-                        break
+                for q, pc in enumerate(rec['ends'][:6]):
+                    if ends[q] == 'unknown' and ends.count('retry') < 2:
+                        ends[q] = 'retry'
+                        r1 = _sat(ctx, pc, 15000)
+                        if r1 == 'sat':
+                            ends.append('sat')
+                            break
+                ends = ['unknown' if e == 'retry' else e for e in ends]
+            if len(rec['ends']) > 6 and 'sat' not in ends:
+                ends.append('unknown')
             if 'sat' in ends:
                 status, detail = OK, 'body of loop `%s` reachable to its end' % rec['key']
             elif ends and all(e == 'unsat' for e in ends):
